@@ -21,6 +21,8 @@ structure CliCase where
   listening : Bool := false   -- a scripted service listens on `listen`
   listen : String := ""
   hold : Bool := false        -- the service keeps the connection open after the frames (the harness ends the tool)
+  debug : Bool := false       -- --debug: the report is printed in another form (only its presence is observed)
+  hosts : Bool := false       -- the address names the service by a host name that resolves to several addresses
 
 structure CliObs where
   conns : Nat
@@ -78,7 +80,9 @@ def P_C20 (c : CliCase) (o : CliObs) : Verdict :=
   if c.listening && o.conns > 0 && addressPart c.url != c.listen then
     some "service-contacted-although-the-argument-names-another-address (not split at the last slash)" else
   -- a well-formed ADDRESS/INTERFACE.METHOD whose address is the one the service listens on must reach it
-  if c.listening && (url_ok c) && o.conns == 0 then some "address-method-argument-not-split-at-the-last-slash (service not contacted)" else
+  if c.listening && (url_ok c) && o.conns == 0 then
+    (if c.hosts then some "service-not-contacted-although-its-host-name-resolves-to-the-address-it-listens-on"
+     else some "address-method-argument-not-split-at-the-last-slash (service not contacted)") else
   if o.conns == 0 || o.log.isEmpty then
     -- nothing was called: nothing may be printed, and that is a failure
     (if !o.stdout.isEmpty then some "output-without-a-call"
@@ -112,6 +116,7 @@ def P_C20 (c : CliCase) (o : CliObs) : Verdict :=
           -- the first reply that is an error must be reported by name and parameters
           match reads[good.length]? with
           | some (some e) =>
+            if c.debug then (if e.error.isSome && !o.otherMsg then some "error-reply-not-reported-on-stderr" else none) else
             (match e.error with
              | some name =>
                (match stdShort.find? (·.1 == name), o.report with
